@@ -74,7 +74,9 @@ class QMap(afmformats.AFMQMap):
                   cache=False)
     def feat_meta_rating(idnt):
         """Rating"""
-        if idnt._rating is None:
+        if (idnt._rating is None
+                or idnt._rating[0] != idnt.fit_properties.get("hash", "none")):
+            # (not rated, or rated for a previous fit)
             msg = "The experimental data has not been rated. Please call " \
                   + "`idnt.rate_quality` manually for {}!".format(idnt)
             warnings.warn(msg, DataMissingWarning)
